@@ -34,7 +34,8 @@ CLAIMED["C10"] = dict(
     category="proof",
     text="verify_variadic_same_size / verify_variadic_attr_size / verify_variadic_size, irdl_build_arg_list and the generated segment "
          "accessors are extracted from /repo and verified: verification succeeds EXACTLY when a legal split exists (both directions, "
-         "raise paths included), built size vectors satisfy the verifier, accessors return args[off:off+size]. Unbounded in list lengths and "
+         "raise paths included), built size vectors satisfy the verifier, accessors return args[off:off+size]; irdl_op_verify_arg_list verifies EVERY definition's "
+         "constraint against exactly the types of its segment (the empty range for an absent optional) in the one shared constraint context. Unbounded in list lengths and "
          "segment sizes, instantiated for every kind sequence of up to 4 (quick) / 5 (thorough) declared constructs. Plus a bounded stand-in "
          "running real Operation.verify/build/accessors on generated IRDL definitions.",
     note="Bounded in the NUMBER of declared constructs (<=4/5); definition lists abstracted to kind sequences through isinstance (class "
